@@ -29,12 +29,19 @@ Clause → theorem (details in notes/C01.md):
                                         start_sync.go (`Gen/SchedConc.lean`); C01_lazy_start_flag_check_counterexample,
                                         C01_start_overlapping_next_counterexample (limits); C01_start_effect: what the
                                         regenerated access list of Start leaves behind (= initStarted), a second Start panics
+  round 6, compositions                 C01_chain_is_c02_composite (the sequential composite of C01_chain IS C02's composite model
+                                        over the regenerated leaf methods; Left() of a step profile before its start),
+                                        C01_engine_fires_profile (profile → schedule → Waiter → instance loop over C04's model:
+                                        operations acted on in profile order, at most once, none before its instant, all of
+                                        them when nothing interferes)
 -/
 import Pandora.Proofs.C01
 import Pandora.Proofs.C01Chain
 import Pandora.Proofs.C01Float
 import Pandora.Proofs.C01LineFloat
 import Pandora.Bridge.C01Conc
+import Pandora.Proofs.C01R6Comp
+import Pandora.Proofs.C01R6Wait
 import Mathlib.Analysis.SpecialFunctions.Integrals.Basic
 
 set_option linter.unreachableTactic false
@@ -833,5 +840,94 @@ example : ((Model.C01Conc.run 0 (Model.C01Conc.initLazy Gen.SchedConc.nextProg)
 example : ((Model.C01Conc.run 0 (Model.C01Conc.initStarted 5 Gen.SchedConc.nextProg)
       (List.replicate 12 [((3 : ℕ), (1 : ℤ)), (4, 1)]).flatten).log.map fun a => (a.start, a.idx)) ∈
         [[(some 5, (0 : ℤ)), (some 5, 1)], [(some 5, 1), (some 5, 0)]] := by decide
+
+/-! ### round 6 — compositions over the neighbours' models -/
+
+open Pandora.Proofs.C01R6Comp in
+/-- **the succession of levels is C02's composite over C01's leaves** (G, composition with C02): C02 models
+`compositeSchedule` generically over the interface `Ops σ` of its nested schedules (`Model.C02.newComposite` with the
+backwards `leftAfter` loop, `compStart`, `compNext`, `compLeft`) and ties that model to composite.go for EVERY instance
+of the interface (C02_newComposite_is_source, C02_next_is_source, C02_left_is_source, C02_seq_refines). Instantiated
+with the REGENERATED leaf methods of C01 (`doAtOps`), for every list of levels, every start and every sequence of calls
+of one consumer it answers exactly what `chainRun` answers — so `C01_chain` and `C01_step_chain` are statements about
+C02's composite model built on C01's regenerated leaves: operation k of level i at `t0 + i·D + ⌊k/rateᵢ·10⁹⌋`, finish at
+`t0 + levels·D`. And `Left()` of that composite (two or more levels) before its start is the number of operations of all
+levels together. -/
+theorem C01_chain_is_c02_composite (levels : List Level) (t0 : ℤ) (nows : List ℤ) :
+    c02Run levels t0 nows = chainRun levels t0 nows ∧
+    (∀ (f t : ℝ) (s D : ℤ), StepConfig_valid f t s D → f ≠ t →
+      ∃ ans : ℕ → ℤ × Bool,
+        c02Run (stepLevels f t s D) t0 nows = Except.ok ((List.range nows.length).map ans) ∧
+        (∀ (i : ℕ) (hi : i < (stepLevels f t s D).length) (k : ℕ), k < ((stepLevels f t s D)[i]).2.1.toNat →
+            ans (opsBefore (stepLevels f t s D) i + k) =
+              (t0 + (i : ℤ) * D + ((stepLevels f t s D)[i]).2.2 k, true)) ∧
+        (∀ j : ℕ, totalOps (stepLevels f t s D) ≤ j → ans j = (t0 + ((stepLevels f t s D).length : ℤ) * D, false))) ∧
+    (∀ (l l2 : Level) (rest : List Level) (now : ℤ), (∀ x ∈ l :: l2 :: rest, 0 ≤ x.2.1) →
+      ∃ c, Model.C02.newComposite doAtOps t0 ((l :: l2 :: rest).map fresh) = .ok (.inr c) ∧
+        ∃ c', Model.C02.compLeft doAtOps c now = .ok (c', opsAfter (l :: l2 :: rest))) := by
+  refine ⟨c02Run_eq_chainRun levels t0 nows, ?_, ?_⟩
+  · intro f t s D h hne
+    obtain ⟨_, ans, h1, h2, h3⟩ := C01_step_chain f t s D h hne t0 nows
+    exact ⟨ans, by rw [c02Run_eq_chainRun]; exact h1, h2, h3⟩
+  · intro l l2 rest now hpos
+    exact c02Left_before_start l l2 rest t0 now hpos
+
+open Pandora.Model.C04 Pandora.Proofs.C04 Pandora.Proofs.C01R6Wait in
+/-- **end to end: accepted profile → schedule → Waiter → instance loop** (G, composition with C04's model of
+`coreutil.Waiter` and of the loop of `instance.Run`, both tied to the source by `Bridge.Waiter`; C04 proves "no early
+shot" for an ARBITRARY token sequence, here the tokens are what the regenerated schedule answers).  For every accepted
+const or line configuration, the schedule started at `t0`, one instance, ANY world history `h` (context done or not at the
+loop head and at `Wait`'s entry, ammo or not, clock readings, timers that fire or are cancelled — `feed` calls the
+regenerated `Left()` / `Next()` exactly where `IsFinished` / `Wait` call them):
+* nothing panics;
+* the scheduled instants of the actions (Shoot, or Report of a discarded sample), in the order the actions happen, are a
+  subsequence of `t0 + at 0, t0 + at 1, …, t0 + at (n−1)` with `n = ⌊∫rate⌋` and `at k` the ns-truncation of the earliest
+  instant at which the integral of the configured rate reaches k: operations are acted on in profile order, each at most
+  once, never more than the profile holds;
+* under the clock hypotheses of C04 (`ClockOK`: readings do not go back, a timer does not fire early) every action happens
+  at an instant ≥ its scheduled instant — no operation is fired before the profile's instant for it;
+* when nothing interferes (`CalmIter`) and the history is long enough, EVERY operation of the profile is acted on and the
+  loop then ends by itself. -/
+theorem C01_engine_fires_profile (s : Sched) (c : ℝ → ℝ) (D : ℤ) (hs : Realises s c D) (d : Bool) (t0 : ℤ) :
+    ∃ (n : ℤ) (at_ : ℤ → ℤ), s = Sched.doAt D n at_ ∧ n = ⌊c (secs D)⌋ ∧
+      (∀ k : ℤ, 0 ≤ k → k < n → ∃ x : ℝ, EarliestAt c D k x ∧ at_ k = ⌊x * 1000000000⌋) ∧
+      ∀ h : List Iter, ∃ h', feed (startedSt D n at_ t0 0) h = .ok h' ∧
+        (∀ w : Waiter, (evToks (runLoop .fresh d w h').1).Sublist
+            ((List.range n.toNat).map fun (k : ℕ) => t0 + at_ (k : ℤ))) ∧
+        (∀ w : Waiter, ClockOK w h' →
+            ∀ ev ∈ (runLoop .fresh d w h').1, ∃ next, ev.iter.env.tok = some next ∧ next ≤ ev.iter.env.ret) ∧
+        ((∀ it ∈ h, CalmIter it) → n.toNat < h.length → ∀ w : Waiter,
+            evToks (runLoop .fresh d w h').1 = (List.range n.toNat).map (fun (k : ℕ) => t0 + at_ (k : ℤ)) ∧
+            (runLoop .fresh d w h').2 = Exit.loopEnd) := by
+  obtain ⟨n, at_, rfl, hn, hk⟩ := hs
+  refine ⟨n, at_, rfl, hn, fun k h0 h1 => ?_, fun h => ?_⟩
+  · obtain ⟨x, hx, hat, _, _⟩ := hk k h0 h1
+    exact ⟨x, hx, hat⟩
+  · have hprof : profToks n at_ t0 0 = (List.range n.toNat).map (fun (k : ℕ) => t0 + at_ (k : ℤ)) := by
+      unfold profToks
+      simp only [Nat.sub_zero, List.range_eq_range']
+    obtain ⟨h', hfeed, _, hsub⟩ := feed_started d D n at_ t0 h 0
+    refine ⟨h', hfeed, fun w => hprof ▸ hsub w, fun w hc => no_early d h' w hc, ?_⟩
+    intro hcalm hlen w
+    obtain ⟨h'', hfeed', hall⟩ := feed_started_calm d D n at_ t0 h 0 hcalm (by omega)
+    rw [hfeed] at hfeed'
+    injection hfeed' with hEq
+    subst hEq
+    obtain ⟨e1, e2⟩ := hall w
+    exact ⟨hprof ▸ e1, e2 (by omega)⟩
+
+-- non-vacuity of the composition: const 2/s over 1 s started at 100: two passes in a calm world with the clock at
+-- the token time fire both operations (at 100 and 500000100), the third pass ends the loop
+example :
+    let it : Model.C04.Iter := { finished := false, ammoOk := true, env := { now := 600000000, arm := 600000000, ret := 600000000 } }
+    ∃ h', Proofs.C01R6Wait.feed (startedSt 1000000000 2 (fun k => k * 500000000) 100 0) [it, it, it] = .ok h' ∧
+      Proofs.C01R6Wait.evToks (Model.C04.runLoop .fresh true {} h').1 = [100, 500000100] ∧
+      (Model.C04.runLoop .fresh true {} h').2 = Model.C04.Exit.loopEnd ∧
+      Proofs.C04.ClockOK {} h' ∧ (∀ x ∈ [it, it, it], Proofs.C01R6Wait.CalmIter x) := by
+  refine ⟨_, rfl, by decide, by decide, by decide, ?_⟩
+  intro x hx
+  simp at hx
+  subst hx
+  exact ⟨rfl, rfl, rfl, rfl⟩
 
 end Pandora.Props.C01
